@@ -9,7 +9,7 @@ import (
 )
 
 // Schema-bearing keywords as holders ("items[]" = tuple member).
-var HolderKw = []string{"properties", "patternProperties", "definitions", "items", "items[]", "additionalProperties", "additionalItems", "additionalItems-alone", "additionalItems-single-items", "allOf", "anyOf", "oneOf", "not"}
+var HolderKw = []string{"properties", "patternProperties", "definitions", "items", "items[]", "additionalProperties", "additionalItems", "additionalItems-alone", "additionalItems-single-items", "additionalItems-next-to-additionalProperties", "allOf", "anyOf", "oneOf", "not"}
 
 var Containers = []string{"definition", "sharedParam", "sharedResponse", "opParam", "pathParam", "defaultResponse", "codeResponse"}
 
@@ -53,6 +53,9 @@ func Wrap(kw string, depth int, leaf jx.Obj, key string) jx.Obj {
 			cur = jx.Obj{"type": "object", "description": d, "additionalProperties": cur}
 		case "additionalItems":
 			cur = jx.Obj{"type": "array", "description": d, "items": jx.Arr{jx.Obj{"type": "string"}}, "additionalItems": cur}
+		case "additionalItems-next-to-additionalProperties":
+			// one schema object carrying both keywords (legal when no type, or several, are given)
+			cur = jx.Obj{"description": d, "additionalProperties": jx.Obj{"type": "object", "description": "ap of " + d, "properties": jx.Obj{"a": jx.Obj{"type": "string"}}}, "additionalItems": cur}
 		case "additionalItems-single-items":
 			cur = jx.Obj{"type": "array", "description": d, "items": jx.Obj{"type": "string"}, "additionalItems": cur}
 		case "additionalItems-alone":
